@@ -12,7 +12,8 @@ META = {
     "transforms": ["if-conversion (calc_crc24q, _set_attribute_single)", "fold summary of calc_crc24q for long frames (cross-checked against the direct term for short ones)"],
     "shims": ["int", "bin", "chr"],
     "bounds": {"quick": "payload lengths {2..8, 255, 256, 511, 512, 1023} for unknown types (all payload bits symbolic); every defined identity once in directed mode "
-                        "(counts 1) padded to L in {needed, 300, 600}; parse->serialize on symbolic valid frames of the same lengths",
+                        "(counts 1) padded to L in {needed, 300, 600}; parse->serialize on symbolic valid frames of the same lengths; messages obtained by parse() from "
+                        "frames with free reserved header bits (CRC valid) or a free trailer (validate=0), payloads 2,3,5,8,19 bytes: serialize() canonical",
                "thorough": "plus lengths {9..40, 767, 768, 1022}; every defined identity at three structures"},
     "outside": "payload lengths not listed (the code paths do not branch on the length besides the two length bytes); eval() of a bytes literal is CPython's guarantee "
                "(executed on the concrete witness of each structure)",
@@ -33,6 +34,7 @@ def jobs(tier, seed):
     out += [('p2s', L) for L in lens]
     out.append(('repr',))
     out += [('hist', 0), ('hist', 1)]
+    out += [('dirty', L, v) for L in (2, 3, 5, 8, 19) for v in (0, 1)]
     return out
 
 
@@ -248,6 +250,83 @@ def run_p2s(L, res):
     res.absorb_engine(eng)
 
 
+def run_dirty(L, validate, res):
+    """the message is obtained through parse() from a frame that need not be canonical: header bits free (validate=1: the code's CRC over the
+    frame assumed 0) or trailer free (validate=0).  Whatever parse() accepted, serialize() must be the canonical frame of the message's payload."""
+    from pyrtcm.rtcmreader import RTCMReader
+    eng = sym.Engine(max_paths=32, conc_limit=8)
+    eng.query_timeout_ms = 120000
+    H = {}
+
+    def fn():
+        summ = rdrdrv.CrcSummary()
+
+        def hook(arg, r):
+            if validate and not isinstance(r, int) and 'f' in H and len(arg) == len(H['f']) and sym.same_bytes(list(arg), list(H['f'])):
+                eng.assume(r.t == 0)
+        rec = rdrdrv.CrcRecorder(summ, hook)
+        shims.set_crc(rec)
+        try:
+            p = sym.symbytes("p", L)
+            eng.assume(msgdrv.fterm(SymBytes(p.e[:2]).term(), 16, 0, 12) == 4072)
+            c = sym.symbytes("c", 3)
+            h = sym.symbytes("h", 1)
+            # reserved header bits free; the 10-bit length stays the real one (a wrong length is C01/C08 matter)
+            eng.assume(sym.byte_term(h.e[0]) & 3 == L >> 8)
+            f = SymBytes([0xD3, h.e[0], L & 0xFF] + p.e + c.e)
+            H.update(f=f, p=p, rec=rec)
+            m = RTCMReader.parse(f, validate=validate)
+            return m, m.serialize()
+        finally:
+            shims.set_crc(summ.direct)
+    for path in eng.explore(fn):
+        if path.kind in ('abort', 'exc'):
+            continue          # rejecting the frame is allowed here
+        if path.kind != 'ret':
+            res['inconclusive'].append(f"dirty L={L}: {path.kind} {str(path.value)[:80]}")
+            continue
+        res['obligations'] += 1
+        m, g = path.value
+        f, p, rec = H['f'], H['p'], H['rec']
+        bad = []
+        if not sym.same_bytes(list(m.payload), list(p)):
+            bad.append("parsed payload is not the frame minus header and trailer")
+        if not isinstance(g, (SymBytes, bytes)) or len(g) != L + 6:
+            bad.append("serialize() has the wrong length")
+        else:
+            for i, e in enumerate([0xD3, L >> 8, L & 0xFF]):
+                x = g[i]
+                if (x != e) if isinstance(x, int) else (eng.forced(sym.byte_term(x) == e) is not True):
+                    bad.append(f"header byte {i} of serialize() is not canonical")
+            if not sym.same_bytes(list(g[3:3 + L]), list(p)):
+                bad.append("payload bytes of serialize() differ")
+            calls = [r for a, r in rec.calls if len(a) == L + 3 and sym.same_bytes(list(a), list(g[:L + 3]))]
+            if not calls:
+                bad.append("no CRC was computed over the canonical header+payload")
+            else:
+                ct = calls[0].t if isinstance(calls[0], SymInt) else z3.BitVecVal(calls[0], 26)
+                if eng.forced(z3.ZeroExt(3, SymBytes(list(g[L + 3:])).term()) == sym.sx(ct, 27)) is not True:
+                    bad.append("trailer of serialize() is not the CRC of the canonical header+payload")
+        if bad:
+            res['refuted'] += 1
+            # prefer a model in which the frame is visibly non-canonical
+            pref = z3.Or(sym.byte_term(f.e[1]) != (L >> 8), SymBytes(list(f[L + 3:])).term() != 0)
+            r = eng.check3(pref)
+            if r != 'sat':
+                r = eng.check3()
+            if r == 'sat':
+                fr = rdrdrv.model_bytes(eng.model(), f)
+                res['cex'].append({'kind': 'roundtrip', 'payload': fr[3:-3].hex(), 'frame': fr.hex(), 'validate': validate, 'fixcrc': bool(validate),
+                                   'why': "; ".join(bad[:3]), 'dedup': f"dirty:{L}:{validate}:{bad[0][:30]}"})
+        else:
+            res['discharged'] += 1
+            if not res['witnesses'] and eng.check3(sym.byte_term(f.e[1]) != (L >> 8)) == 'sat':
+                fr = rdrdrv.model_bytes(eng.model(), f)
+                res['witnesses'].append({'kind': 'roundtrip', 'payload': fr[3:-3].hex(), 'frame': fr.hex(), 'validate': validate, 'fixcrc': bool(validate)})
+        res.count('dirty')
+    res.absorb_engine(eng)
+
+
 def run_hist(validate, res):
     """two different frames of equal length that share their three trailer bytes, parsed one after the other: the second result must be
     the second frame's message (a result remembered by length/trailer would return the first)"""
@@ -312,6 +391,8 @@ def run_job(spec):
         run_p2s(spec[1], res)
     elif spec[0] == 'hist':
         run_hist(spec[1], res)
+    elif spec[0] == 'dirty':
+        run_dirty(spec[1], spec[2], res)
     else:
         # repr / eval round trip on concrete witnesses of odd payloads (quotes, backslashes, NUL, high bytes): replayed on the real code
         for pl in (b"\xfe\x80'\"\\\x00\xff\n", bytes(range(256))[62:120], b">\xf4\xd2\x03ABC\xea", b"\xfe\x80" + bytes(range(256))):
